@@ -5,18 +5,25 @@ import PySMT.Proofs.C07Read2
 namespace PySMT.Printer
 open PySMT.Std PySMT.Sexp
 
-/-- what the reader returns for the printed form of `a` -/
-def U (a : Term) : TT := (unfoldAV a, tyD a)
+/-- what the reader returns for the printed form of `a` (`b`: which printer's order of array-value assignments) -/
+def U (b : Bool) (a : Term) : TT := (unfoldAVw b a, tyD a)
 
-/-- the printed form of `a` is read back, with `a`'s sort -/
-def Reads (sp : Spell) (env : SEnv) (scope : List Sym) (a : Term) : Prop :=
-  a.typeOf = some (tyD a) ∧ rd env (scope.map Binding.var) (toSexpWith sp a) = .ok (U a)
+/-- In the scope `sc`, the S-expression `toS a` that was printed for the sub-term `a` is read back as `a`, with `a`'s
+sort. (`toS` is `toSexpWith sp` for the tree printer, the memoized result for the DAG printer.) -/
+def Reads (env : SEnv) (sc : List Binding) (b : Bool) (toS : Term → Sexp) (a : Term) : Prop :=
+  a.typeOf = some (tyD a) ∧ rd env sc (toS a) = .ok (U b a)
 
-theorem rdList_args (sp : Spell) (env : SEnv) (scope : List Sym) : ∀ (args : List Term),
-    (∀ a ∈ args, Reads sp env scope a) → rdList env (scope.map Binding.var) (args.map (toSexpWith sp)) = .ok (args.map U)
+/-- … and what the printer writes for the node itself, from the results `toS` of its arguments, is read back as the node -/
+def NodeReads (sp : Spell) (env : SEnv) (sc : List Binding) (b : Bool) (toS : Term → Sexp)
+    (op : Op) (args : List Term) (p : Payload) : Prop :=
+  (Term.node op args p).typeOf = some (tyD (.node op args p)) ∧
+    rd env sc (nodeSexp sp b op p args (args.map toS)) = .ok (U b (.node op args p))
+
+theorem rdList_args (env : SEnv) (sc : List Binding) (b : Bool) (toS : Term → Sexp) : ∀ (args : List Term),
+    (∀ a ∈ args, Reads env sc b toS a) → rdList env sc (args.map toS) = .ok (args.map (U b))
   | [], _ => rfl
   | a :: as, h => by
-    simp [rdList, (h a (by simp)).2, rdList_args sp env scope as (fun x hx => h x (List.mem_cons_of_mem _ hx))]
+    simp [rdList, (h a (by simp)).2, rdList_args env sc b toS as (fun x hx => h x (List.mem_cons_of_mem _ hx))]
 
 theorem typeOf_node (op : Op) (args : List Term) (p : Payload) :
     (Term.node op args p).typeOf = typeOfNode op p (args.map Term.typeOf) := by
@@ -26,22 +33,24 @@ theorem toSexpWith_node (sp : Spell) (op : Op) (args : List Term) (p : Payload) 
     toSexpWith sp (.node op args p) = nodeSexp sp true op p args (args.map (toSexpWith sp)) := by
   simp [toSexpWith]
 
-theorem reads_of (sp : Spell) (env : SEnv) (scope : List Sym) (t u : Term) (τ : Ty) (hty : t.typeOf = some τ)
-    (hu : unfoldAV t = u) (h : rd env (scope.map Binding.var) (toSexpWith sp t) = .ok (u, τ)) : Reads sp env scope t := by
-  have htd : tyD t = τ := by simp [tyD, hty]
+theorem reads_of (sp : Spell) (env : SEnv) (sc : List Binding) (b : Bool) (toS : Term → Sexp)
+    (op : Op) (args : List Term) (p : Payload) (u : Term) (τ : Ty) (hty : (Term.node op args p).typeOf = some τ)
+    (hu : unfoldAVw b (.node op args p) = u)
+    (h : rd env sc (nodeSexp sp b op p args (args.map toS)) = .ok (u, τ)) : NodeReads sp env sc b toS op args p := by
+  have htd : tyD (.node op args p) = τ := by simp [tyD, hty]
   exact ⟨by rw [hty, htd], by rw [h, U, hu, htd]⟩
 
 /-- the generic step for an operator that is printed `(f args…)` and read by `applyTheory f` -/
-theorem reads_simple (sp : Spell) (env : SEnv) (scope : List Sym) (hsc : ScopeOK scope)
+theorem reads_simple (sp : Spell) (env : SEnv) (sc : List Binding) (hsc : ThFree sc) (b : Bool) (toS : Term → Sexp)
     (op : Op) (p : Payload) (args : List Term) (f : String) (hf : f ∈ opToks)
-    (hsexp : ∀ as, nodeSexp sp true op p args as = .list (.atom f :: as))
-    (hunf : unfoldAV (.node op args p) = .node op (args.map unfoldAV) p)
-    (hargs : ∀ a ∈ args, Reads sp env scope a) (hne : args ≠ [])
+    (hsexp : ∀ as, nodeSexp sp b op p args as = .list (.atom f :: as))
+    (hunf : unfoldAVw b (.node op args p) = .node op (args.map (unfoldAVw b)) p)
+    (hargs : ∀ a ∈ args, Reads env sc b toS a) (hne : args ≠ [])
     (τ : Ty) (hty : (Term.node op args p).typeOf = some τ)
-    (hap : applyTheory f (args.map U) = .ok (.node op (args.map unfoldAV) p, τ)) :
-    Reads sp env scope (.node op args p) := by
-  apply reads_of sp env scope _ _ τ hty hunf
-  rw [toSexpWith_node, hsexp, rd_op env scope hsc f hf _ _ (rdList_args sp env scope args hargs)
+    (hap : applyTheory f (args.map (U b)) = .ok (.node op (args.map (unfoldAVw b)) p, τ)) :
+    NodeReads sp env sc b toS op args p := by
+  apply reads_of sp env sc b toS _ _ _ _ τ hty hunf
+  rw [hsexp, rd_op env sc hsc f hf _ _ (rdList_args env sc b toS args hargs)
     (by cases args <;> simp_all), hap]
 
 theorem spell (sp : Spell) (hsp : SpellStd sp) (k v : String) (h : (k, v) ∈ stdSpellings) : sp k = v := hsp (k, v) h
@@ -60,31 +69,33 @@ theorem map_eq_three {α β} {f : α → β} {l : List α} {x y z : β} (h : l.m
   match l, h with
   | [a, b, c], h => simp at h; exact ⟨a, b, c, rfl, h.1, h.2.1, h.2.2⟩
 
-theorem allTy_U {args : List Term} {t : Ty} (h : (args.map tyD).all (· == t) = true) : allTy (args.map U) t = true := by
+theorem allTy_U {b : Bool} {args : List Term} {t : Ty} (h : (args.map tyD).all (· == t) = true) :
+    allTy (args.map (U b)) t = true := by
   simp only [allTy, List.all_map, List.all_eq_true, Function.comp] at *
   intro a ha
   simpa [U] using h a ha
 
-theorem map_fst_U (args : List Term) : (args.map U).map (·.1) = args.map unfoldAV := by
+theorem map_fst_U (b : Bool) (args : List Term) : (args.map (U b)).map (·.1) = args.map (unfoldAVw b) := by
   simp [U, Function.comp_def]
 
-theorem unfoldAV_plain (op : Op) (args : List Term) (p : Payload) (h : op ≠ .arrayValue) :
-    unfoldAV (.node op args p) = .node op (args.map unfoldAV) p := by
-  unfold unfoldAV
+theorem unfoldAV_plain (b : Bool) (op : Op) (args : List Term) (p : Payload) (h : op ≠ .arrayValue) :
+    unfoldAVw b (.node op args p) = .node op (args.map (unfoldAVw b)) p := by
+  unfold unfoldAVw
   dsimp only
   split
   · exact absurd rfl h
   · rfl
 
 section
-variable (sp : Spell) (hsp : SpellStd sp) (env : SEnv) (scope : List Sym) (hsc : ScopeOK scope)
+variable (sp : Spell) (hsp : SpellStd sp) (env : SEnv) (sc : List Binding) (hsc : ThFree sc) (srt : Bool)
+  (toS : Term → Sexp) (scope0 : List Sym)
 include hsp hsc
 
 /-- n-ary `and`, `or` -/
 theorem reads_andor (op : Op) (hop : op = .and ∨ op = .or) (p : Payload) (args : List Term) (τ : Ty)
-    (hargs : ∀ a ∈ args, Reads sp env scope a) (hty : (Term.node op args p).typeOf = some τ)
-    (hS : stdTy op p (args.map tyD) = some τ) (hok : nodeOK env scope op p args = true) :
-    Reads sp env scope (.node op args p) := by
+    (hargs : ∀ a ∈ args, Reads env sc srt toS a) (hty : (Term.node op args p).typeOf = some τ)
+    (hS : stdTy op p (args.map tyD) = some τ) (hok : nodeOK env scope0 op p args = true) :
+    NodeReads sp env sc srt toS op args p := by
   rcases hop with rfl | rfl
   · simp only [stdTy, Bool.and_eq_true, beq_iff_eq] at hS
     split at hS <;> simp at hS
@@ -93,10 +104,10 @@ theorem reads_andor (op : Op) (hop : op = .and ∨ op = .or) (p : Payload) (args
     subst hS
     simp only [nodeOK, decide_eq_true_eq] at hok
     have hne : args ≠ [] := by intro h; subst h; simp at hok
-    apply reads_simple sp env scope hsc .and .none args "and" (by decide)
+    apply reads_simple sp env sc hsc srt toS .and .none args "and" (by decide)
       (fun as => by simp [nodeSexp, walkKey, spell sp hsp "walk_and" "and" (by decide)])
-      (unfoldAV_plain _ _ _ (by decide)) hargs hne _ hty
-    rw [ap_and _ (by simpa using hok) (allTy_U hall), map_fst_U]
+      (unfoldAV_plain srt _ _ _ (by decide)) hargs hne _ hty
+    rw [ap_and _ (by simpa using hok) (allTy_U hall), map_fst_U srt]
   · simp only [stdTy, Bool.and_eq_true, beq_iff_eq] at hS
     split at hS <;> simp at hS
     rename_i hc
@@ -104,15 +115,15 @@ theorem reads_andor (op : Op) (hop : op = .and ∨ op = .or) (p : Payload) (args
     subst hS
     simp only [nodeOK, decide_eq_true_eq] at hok
     have hne : args ≠ [] := by intro h; subst h; simp at hok
-    apply reads_simple sp env scope hsc .or .none args "or" (by decide)
+    apply reads_simple sp env sc hsc srt toS .or .none args "or" (by decide)
       (fun as => by simp [nodeSexp, walkKey, spell sp hsp "walk_or" "or" (by decide)])
-      (unfoldAV_plain _ _ _ (by decide)) hargs hne _ hty
-    rw [ap_or _ (by simpa using hok) (allTy_U hall), map_fst_U]
+      (unfoldAV_plain srt _ _ _ (by decide)) hargs hne _ hty
+    rw [ap_or _ (by simpa using hok) (allTy_U hall), map_fst_U srt]
 
 /-- `not`, `=>`, `=` on Bool -/
 theorem reads_boolfix (op : Op) (hop : op = .not ∨ op = .implies ∨ op = .iff) (p : Payload) (args : List Term) (τ : Ty)
-    (hargs : ∀ a ∈ args, Reads sp env scope a) (hty : (Term.node op args p).typeOf = some τ)
-    (hS : stdTy op p (args.map tyD) = some τ) : Reads sp env scope (.node op args p) := by
+    (hargs : ∀ a ∈ args, Reads env sc srt toS a) (hty : (Term.node op args p).typeOf = some τ)
+    (hS : stdTy op p (args.map tyD) = some τ) : NodeReads sp env sc srt toS op args p := by
   rcases hop with rfl | rfl | rfl
   · simp only [stdTy] at hS
     split at hS <;> simp at hS
@@ -121,9 +132,9 @@ theorem reads_boolfix (op : Op) (hop : op = .not ∨ op = .implies ∨ op = .iff
     obtain ⟨rfl, hts⟩ := hc
     subst hS
     obtain ⟨a, rfl, ha⟩ := map_eq_one hts
-    apply reads_simple sp env scope hsc .not .none [a] "not" (by decide)
+    apply reads_simple sp env sc hsc srt toS .not .none [a] "not" (by decide)
       (fun as => by simp [nodeSexp, walkKey, spell sp hsp "walk_not" "not" (by decide)])
-      (unfoldAV_plain _ _ _ (by decide)) hargs (by simp) _ hty
+      (unfoldAV_plain srt _ _ _ (by decide)) hargs (by simp) _ hty
     simp only [List.map, U, ha]; exact ap_not _
   · simp only [stdTy] at hS
     split at hS <;> simp at hS
@@ -132,9 +143,9 @@ theorem reads_boolfix (op : Op) (hop : op = .not ∨ op = .implies ∨ op = .iff
     obtain ⟨rfl, hts⟩ := hc
     subst hS
     obtain ⟨a, b, rfl, ha, hb⟩ := map_eq_two hts
-    apply reads_simple sp env scope hsc .implies .none [a, b] "=>" (by decide)
+    apply reads_simple sp env sc hsc srt toS .implies .none [a, b] "=>" (by decide)
       (fun as => by simp [nodeSexp, walkKey, spell sp hsp "walk_implies" "=>" (by decide)])
-      (unfoldAV_plain _ _ _ (by decide)) hargs (by simp) _ hty
+      (unfoldAV_plain srt _ _ _ (by decide)) hargs (by simp) _ hty
     simp only [List.map, U, ha, hb]; exact ap_implies _ _
   · simp only [stdTy] at hS
     split at hS <;> simp at hS
@@ -143,16 +154,16 @@ theorem reads_boolfix (op : Op) (hop : op = .not ∨ op = .implies ∨ op = .iff
     obtain ⟨rfl, hts⟩ := hc
     subst hS
     obtain ⟨a, b, rfl, ha, hb⟩ := map_eq_two hts
-    apply reads_simple sp env scope hsc .iff .none [a, b] "=" (by decide)
+    apply reads_simple sp env sc hsc srt toS .iff .none [a, b] "=" (by decide)
       (fun as => by simp [nodeSexp, walkKey, spell sp hsp "walk_iff" "=" (by decide)])
-      (unfoldAV_plain _ _ _ (by decide)) hargs (by simp) _ hty
+      (unfoldAV_plain srt _ _ _ (by decide)) hargs (by simp) _ hty
     simp only [List.map, U, ha, hb]; exact ap_iff _ _
 
 /-- n-ary `+`, `*` -/
 theorem reads_plustimes (op : Op) (hop : op = .plus ∨ op = .times) (p : Payload) (args : List Term) (τ : Ty)
-    (hargs : ∀ a ∈ args, Reads sp env scope a) (hty : (Term.node op args p).typeOf = some τ)
-    (hS : stdTy op p (args.map tyD) = some τ) (hok : nodeOK env scope op p args = true) :
-    Reads sp env scope (.node op args p) := by
+    (hargs : ∀ a ∈ args, Reads env sc srt toS a) (hty : (Term.node op args p).typeOf = some τ)
+    (hS : stdTy op p (args.map tyD) = some τ) (hok : nodeOK env scope0 op p args = true) :
+    NodeReads sp env sc srt toS op args p := by
   have key : ∃ t, (t = .int ∨ t = .real) ∧ p = .none ∧ τ = t ∧ (args.map tyD).all (· == t) = true := by
     rcases hop with rfl | rfl <;>
     · simp only [stdTy] at hS
@@ -170,14 +181,14 @@ theorem reads_plustimes (op : Op) (hop : op = .plus ∨ op = .times) (p : Payloa
     rcases hop with rfl | rfl <;> simpa [nodeOK] using hok
   have hne : args ≠ [] := by intro h; subst h; simp at h2
   rcases hop with rfl | rfl
-  · apply reads_simple sp env scope hsc .plus .none args "+" (by decide)
+  · apply reads_simple sp env sc hsc srt toS .plus .none args "+" (by decide)
       (fun as => by simp [nodeSexp, walkKey, spell sp hsp "walk_plus" "+" (by decide)])
-      (unfoldAV_plain _ _ _ (by decide)) hargs hne _ hty
-    rw [ap_plus _ τ ht (by simpa using h2) (allTy_U hall), map_fst_U]
-  · apply reads_simple sp env scope hsc .times .none args "*" (by decide)
+      (unfoldAV_plain srt _ _ _ (by decide)) hargs hne _ hty
+    rw [ap_plus _ τ ht (by simpa using h2) (allTy_U hall), map_fst_U srt]
+  · apply reads_simple sp env sc hsc srt toS .times .none args "*" (by decide)
       (fun as => by simp [nodeSexp, walkKey, spell sp hsp "walk_times" "*" (by decide)])
-      (unfoldAV_plain _ _ _ (by decide)) hargs hne _ hty
-    rw [ap_times _ τ ht (by simpa using h2) (allTy_U hall), map_fst_U]
+      (unfoldAV_plain srt _ _ _ (by decide)) hargs hne _ hty
+    rw [ap_times _ τ ht (by simpa using h2) (allTy_U hall), map_fst_U srt]
 
 end
 
